@@ -9,7 +9,7 @@ import vlib, ldpc, sessions
 def strip(ans):
     """tokens comparable between drv_dec (solo) and drv_multi: drop H, Y, LK, PM"""
     toks = [t for t in ans.split()[1:] if not (t.startswith("H") or t.startswith("Y") or t.startswith("LK") or t.startswith("PM"))]
-    return " ".join(":".join(t.split(":")[:3]) if t[0] == "S" and ":" in t else t for t in toks)     # drv_dec adds a state digest to S tokens
+    return " ".join(":".join(t.split(":")[:3]) if t[0] in "SF" and ":" in t else t for t in toks)     # drv_dec adds a state digest to S tokens
 
 
 # Every writable object with static storage duration in the library, as the C12 argument accounts for it (header of
